@@ -173,4 +173,148 @@ theorem sarJudge_sound (env : Env) (cands : List Time) (o : SarObs) (h : sarJudg
           exact Or.inr ⟨t', sarCachedAtB_sound env c o t' ht⟩
       · simpa using h
 
+/-! ## the judge applied to the IMPLEMENTATION: only what the property demands
+
+`TokJudge`/`SarJudge` describe the model exactly (which error in which situation). The property itself only demands that a
+request that cannot be served by its own cluster is refused; it does not say with which error, and refusing more often
+(a stricter implementation) never breaks it. `TokJudgeR`/`SarJudgeR` are implied by the exact judges
+(`TokJudge.relax`, `SarJudge.relax`) and are what the harness evaluates on the real answers:
+
+* no cluster / no ready endpoint: some error (deny), nothing asked;
+* a review was sent: the answer the request's own cluster gives now — or a refusal;
+* no review: a refusal that is not an upstream error (an upstream error without a review is a cached error), or what the
+  request's own cluster said earlier, still within the TTL. Errors always deny. -/
+
+def TokJudgeR (env : Env) (o : TokObs) : Prop :=
+  match o.own with
+  | none => o.res.isError = true ∧ o.reviewed = false
+  | some c =>
+    if o.ownReady = false then o.res.isError = true ∧ o.reviewed = false
+    else if o.reviewed then o.res = (env.tokO c o.tok o.time).res ∨ o.res.isError = true
+    else (o.res.isError = true ∧ o.res ≠ .error .upstream) ∨ ∃ t', tokCachedAt env c o t'
+
+def SarJudgeR (env : Env) (o : SarObs) : Prop :=
+  (o.res.err ≠ none → o.res.decision = .deny) ∧
+  match o.own with
+  | none => o.res.err ≠ none ∧ o.reviewed = false
+  | some c =>
+    if o.ownReady = false then o.res.err ≠ none ∧ o.reviewed = false
+    else if o.reviewed then o.res = (env.sarO c (specOf o.attrs) o.time).res ∨ o.res.err ≠ none
+    else (o.res.err ≠ none ∧ o.res.err ≠ some .upstream) ∨ ∃ t', sarCachedAt env c o t'
+
+theorem TokJudge.relax {env : Env} {o : TokObs} (h : TokJudge env o) : TokJudgeR env o := by
+  unfold TokJudge at h
+  unfold TokJudgeR
+  cases hown : o.own with
+  | none =>
+    simp only [hown] at h ⊢
+    exact ⟨by rw [h.1]; rfl, h.2⟩
+  | some c =>
+    simp only [hown] at h ⊢
+    cases hr : o.ownReady <;> cases hv : o.reviewed <;> simp only [hr, hv] at h ⊢
+    · exact ⟨by rw [h.1]; rfl, h.2⟩
+    · exact ⟨by rw [h.1]; rfl, h.2⟩
+    · simpa using h
+    · simp only [if_true] at h ⊢
+      exact Or.inl h
+
+theorem SarJudge.relax {env : Env} {o : SarObs} (h : SarJudge env o) : SarJudgeR env o := by
+  obtain ⟨h1, h2⟩ := h
+  refine ⟨h1, ?_⟩
+  have hne : ∀ k, (sarErr k).err ≠ none := fun k => by simp [sarErr]
+  cases hown : o.own with
+  | none =>
+    simp only [hown] at h2 ⊢
+    exact ⟨by rw [h2.1]; exact hne _, h2.2⟩
+  | some c =>
+    simp only [hown] at h2 ⊢
+    cases hr : o.ownReady <;> cases hv : o.reviewed <;> simp only [hr, hv] at h2 ⊢
+    · exact ⟨by rw [h2.1]; exact hne _, h2.2⟩
+    · exact ⟨by rw [h2.1]; exact hne _, h2.2⟩
+    · simp only [Bool.true_eq_false, if_false, Bool.false_eq_true] at h2 ⊢
+      cases h2 with
+      | inl h2 => exact Or.inl ⟨by rw [h2]; exact hne _, by rw [h2]; simp [sarErr]⟩
+      | inr h2 => exact Or.inr h2
+    · simp only [if_true] at h2 ⊢
+      exact Or.inl h2
+
+def tokJudgeR (env : Env) (cands : List Time) (o : TokObs) : Bool :=
+  match o.own with
+  | none => o.res.isError && !o.reviewed
+  | some c =>
+    if o.ownReady = false then o.res.isError && !o.reviewed
+    else if o.reviewed then decide (o.res = (env.tokO c o.tok o.time).res) || o.res.isError
+    else (o.res.isError && decide (o.res ≠ .error .upstream)) || cands.any (tokCachedAtB env c o)
+
+def sarJudgeR (env : Env) (cands : List Time) (o : SarObs) : Bool :=
+  (o.res.err.isNone || decide (o.res.decision = .deny)) &&
+  match o.own with
+  | none => o.res.err.isSome && !o.reviewed
+  | some c =>
+    if o.ownReady = false then o.res.err.isSome && !o.reviewed
+    else if o.reviewed then decide (o.res = (env.sarO c (specOf o.attrs) o.time).res) || o.res.err.isSome
+    else (o.res.err.isSome && decide (o.res.err ≠ some .upstream)) || cands.any (sarCachedAtB env c o)
+
+theorem tokJudgeR_sound (env : Env) (cands : List Time) (o : TokObs) (h : tokJudgeR env cands o = true) :
+    TokJudgeR env o := by
+  unfold tokJudgeR at h
+  unfold TokJudgeR
+  cases hown : o.own with
+  | none =>
+    simp only [hown] at h ⊢
+    simpa using h
+  | some c =>
+    simp only [hown] at h ⊢
+    cases hr : o.ownReady <;> cases hv : o.reviewed <;> simp only [hr, hv] at h ⊢
+    · simpa using h
+    · simp at h
+    · simp only [Bool.true_eq_false, if_false, Bool.false_eq_true] at h ⊢
+      rw [Bool.or_eq_true] at h
+      cases h with
+      | inl h => left; simpa using h
+      | inr h =>
+        right
+        obtain ⟨t', _, ht⟩ := List.any_eq_true.1 h
+        exact ⟨t', tokCachedAtB_sound env c o t' ht⟩
+    · simpa using h
+
+theorem isSome_ne_none {α} {x : Option α} (h : x.isSome = true) : x ≠ none := by
+  cases x <;> simp_all
+
+theorem sarJudgeR_sound (env : Env) (cands : List Time) (o : SarObs) (h : sarJudgeR env cands o = true) :
+    SarJudgeR env o := by
+  unfold sarJudgeR at h
+  rw [Bool.and_eq_true] at h
+  obtain ⟨he, h⟩ := h
+  refine ⟨?_, ?_⟩
+  · intro hn
+    rw [Bool.or_eq_true] at he
+    cases he with
+    | inl he => cases hx : o.res.err <;> simp_all
+    | inr he => simpa using he
+  · cases hown : o.own with
+    | none =>
+      simp only [hown, Bool.and_eq_true, Bool.not_eq_true'] at h ⊢
+      exact ⟨isSome_ne_none h.1, h.2⟩
+    | some c =>
+      simp only [hown] at h ⊢
+      cases hr : o.ownReady <;> cases hv : o.reviewed <;> simp only [hr, hv] at h ⊢
+      · simp only [if_true, Bool.and_eq_true, Bool.not_eq_true'] at h ⊢
+        exact ⟨isSome_ne_none h.1, h.2⟩
+      · simp at h
+      · simp only [Bool.true_eq_false, if_false, Bool.false_eq_true] at h ⊢
+        rw [Bool.or_eq_true] at h
+        cases h with
+        | inl h =>
+          rw [Bool.and_eq_true] at h
+          exact Or.inl ⟨isSome_ne_none h.1, by simpa using h.2⟩
+        | inr h =>
+          obtain ⟨t', _, ht⟩ := List.any_eq_true.1 h
+          exact Or.inr ⟨t', sarCachedAtB_sound env c o t' ht⟩
+      · simp only [Bool.true_eq_false, if_false, if_true] at h ⊢
+        rw [Bool.or_eq_true] at h
+        cases h with
+        | inl h => exact Or.inl (by simpa using h)
+        | inr h => exact Or.inr (isSome_ne_none h)
+
 end KG.Spec.AuthCache
